@@ -9,7 +9,7 @@ import os, re, warnings
 import numpy as np
 import vlib
 
-LEVEL_TEXT = ('Lean 4 theorems about tables regenerated from the source on every run (the content is the 15+3 generated cells and the class table; `run_eq_doc`/`final_eq_doc` lift them to programs of any length by a two-line induction ; further: fft_typing, no_write_before_guard, class_run_eq_doc, typed_wavefront_stays_typed, table_driven_all_but_rotate_flip): all 15 cells of the code table equal the '
+LEVEL_TEXT = ('Lean 4 theorems about tables regenerated from the source on every run (the content is the 15+3 generated cells and the class table; `run_eq_doc`/`final_eq_doc` lift them to programs of any length by a two-line induction ; further: fft_typing, no_write_before_guard, propagate_no_write_before_guard, class_run_eq_doc, typed_wavefront_stays_typed, table_driven_all_but_rotate_flip): all 15 cells of the code table equal the '
               'documented RST table; propagation typing; for every program of any length (induction) the code machine and the '
               'documented machine give the same trace of types/refusals; every documented '
               'class except Rotate/Flip has its documented ptype and acts as documented (partial: Rotate/Flip are an open known '
@@ -25,9 +25,9 @@ RULE = ('programs of 1..12 (quick) / 1..40 (thorough) operations drawn from {mul
         'classes (scalar or array-valued), multiply by Plane(ptype=t) for each of the 5 ptypes, propagate_dft, propagate_fft} '
         'with operands as built / through pickle / through copy.deepcopy / with a directly constructed PType, from each of the 3 start types, each built three ways (one array field; no field: Wavefront.empty; no field left after two planes with non-overlapping apertures; plus dedicated cases from a bare Wavefront(λ) with a 0-d field and from a two-segment aperture with two fields); distinct = (start, op sequence); non-trivial = the program contains at least one '
         'accepted and one refused step or a propagation')
-TRUSTED = ['table generators of tools/specs/c08.py: evaluation of the closed Python fragment of _can_mul_ptype/_mul_result_ptype/'
+TRUSTED = ['the effect walker of tools/specs/c08.py (prop_effects/_operand_effects: which AST shapes count as a write to an operand)', 'table generators of tools/specs/c08.py: evaluation of the closed Python fragment of _can_mul_ptype/_mul_result_ptype/'
            '_propagate_ptype/constructors on every input of their finite domain; RST grid/simple table parsing']
-UNPROVEN = ['"a refused operation leaves both operands unchanged": the structural part is a theorem (no_write_before_guard: no multiply override '
+UNPROVEN = ['"a refused operation leaves both operands unchanged": the structural part is a theorem for products (no_write_before_guard) and for propagation (propagate_no_write_before_guard: the statements of propagate_dft/propagate_fft up to and including the `_propagate_ptype` call perform no attribute/item write or in-place mutator call on the wavefront, also through a local alias or inside a module-level helper it is handed to, e.g. _has_tilt — regenerated lists Gen.propDftEffectsBeforeTypeCheck/propFftEffectsBeforeTypeCheck; objects reached by ITERATING over the wavefront, `for f in wavefront.data: f.x = …`, are not followed); (no_write_before_guard: no multiply override '
             'writes an attribute of either operand before delegating to Plane.multiply, whose first statement is the ptype check — regenerated '
             'effect lists); that nothing else (aliasing through helper calls, C code) touches the operands is observed by by-value snapshots on '
             'every refused and accepted step of the correspondence only',
